@@ -286,6 +286,14 @@ let run_schedule (steps : string) : string =
   in
   Printf.sprintf "H[%s]" (String.concat " " outs)
 
+(* C16: thread 0 fails and stays alive, n short-lived threads then fail one after the other, thread 0 reads *)
+let run_sequential (n : int) : string =
+  let rec build i t acc = if i > n then List.rev acc else build (i + 1) (S t) (CFail (S t, n_of_int (1 + ((1 + i mod 4) mod 5))) :: acc) in
+  let ops = (CFail (O, n_of_int 1) :: build 1 O []) @ [CRead O] in
+  match List.rev (run_sched slots_init ops) with
+  | (_, r) :: _ -> Printf.sprintf "HS[%s]" (match r with None -> "nofail" | Some m -> err_text (int_of_n m - 1))
+  | [] -> "HS[?]"
+
 let rec run_op (ctx : ctx) (op : string) : string =
   if String.length op > 3 && String.sub op 0 3 = "HP|" then begin
     (* C17: in the model every entry point is a function of its argument *)
@@ -296,6 +304,7 @@ let rec run_op (ctx : ctx) (op : string) : string =
   let f = Array.of_list (split_on ',' op) in
   match f.(0) with
   | "H" -> run_schedule f.(2)
+  | "HS" -> run_sequential (int_of_string f.(1))
   | "K" ->
     let p = unhex f.(1) and off = nat_of_int (int_of_string f.(2)) in
     on_res (check_compressed_name p off) (fun n -> Printf.sprintf "OK:%d" (int_of_nat n))
